@@ -101,12 +101,8 @@ func ReadRequest(r *bufio.Reader) (*Request, error) {
 	}
 
 	// 读取Body
-	cl := req.Header.Int(FieldContentLength)
-	if cl > 0 {
-		// 读取 n 字节的字串Body
-		body := make([]byte, cl)
-		_, err = io.ReadFull(r, body)
-		req.Body = string(body)
+	if req.Body, err = readBody(r, req.Header); err != nil {
+		return nil, err
 	}
 	return req, nil
 }
